@@ -109,7 +109,7 @@ template <long CAP> static void runTaskList(const std::vector<Op>& ops) {
 // ---- bit stream ----
 template <long BITS> struct StreamRun {
 	using Buffer = StreamBufferT<BITS>;
-	Buffer buffer; BitWriteStreamT<BITS>* w = nullptr; BitReadStreamT<BITS>* r = nullptr;
+	Buffer buffer; Buffer shadow; BitWriteStreamT<BITS>* w = nullptr; BitReadStreamT<BITS>* r = nullptr;
 	alignas(8) unsigned char wmem[sizeof(BitWriteStreamT<BITS>)]; alignas(8) unsigned char rmem[sizeof(BitReadStreamT<BITS>)];
 	void dump() { out += " data="; for (unsigned char x : buffer.data()) { char h[3]; snprintf(h, 3, "%02x", x); out += h; } }
 	template <int W> void doWrite(unsigned long v) { w->template write<W>(static_cast<UBitWidth<W>>(v)); }
@@ -138,6 +138,8 @@ template <long BITS> struct StreamRun {
 			if (o.name == "ws") { w = new (wmem) BitWriteStreamT<BITS>{buffer}; out += " cursor=" + std::to_string(int(w->cursor())); }
 			else if (o.name == "w") { write(int(o.args[0]), static_cast<unsigned long>(o.args[1])); out += " cursor=" + std::to_string(int(w->cursor())); }
 			else if (o.name == "rs") { r = new (rmem) BitReadStreamT<BITS>{buffer}; out += " cursor=" + std::to_string(int(r->cursor())); }
+			else if (o.name == "snap") { memcpy(&shadow, &buffer, sizeof buffer); }
+			else if (o.name == "eq") { out += std::string(" ->") + ((buffer == shadow) ? "1" : "0") + ((buffer != shadow) ? "1" : "0"); }
 			else if (o.name == "r") { unsigned long v = read(int(o.args[0])); out += " ->" + std::to_string(v) + " cursor=" + std::to_string(int(r->cursor())); }
 			dump(); out += "\n";
 		}
